@@ -327,13 +327,22 @@ package helper
 //@ ensures[C04] forall k :: 0 <= k && k < len(result) ==> hor(result, k) <= hor(c, k)
 
 //@ func Duplicate
-//@ trusted symbolic slice of channels with defer-in-loop: contract assumed (DESIGN 9), checked at runtime in the thorough tier
-//@ requires count >= 1 && consumed(input) == 0
+//@ attr streams = arrays
+//@ requires count >= 0 && consumed(input) == 0
 //@ ensures[C16] len(result) == count
 //@ ensures[C16] forall i :: 0 <= i && i < count ==> len(result[i]) == len(input) && closed(result[i])
 //@ ensures[C16] forall i :: 0 <= i && i < count ==> (forall k :: 0 <= k && k < len(input) ==> result[i][k] == input[k])
 //@ ensures[C16,C03] consumed(input) == len(input)
 //@ ensures[C04] forall i :: 0 <= i && i < count ==> (forall k :: 0 <= k && k < len(input) ==> hor(result[i], k) <= hor(input, k))
+//@ ensures[C16] forall a, b :: 0 <= a && a < b && b < count ==> result[a] != result[b]
+//@ loop#0 invariant len(outputs) == count && len(result) == count && consumed(input) == 0 && old(nextid) <= nextid
+//@ loop#0 invariant forall j :: 0 <= j && j < idx0 ==> result[j] == outputs[j] && old(nextid) <= outputs[j] && outputs[j] < nextid && sent(outputs[j]) == 0 && !closed(outputs[j])
+//@ loop#0 invariant forall a, b :: 0 <= a && a < b && b < idx0 ==> outputs[a] != outputs[b]
+//@ loop#2 invariant forall j :: 0 <= j && j < count ==> !closed(outputs[j]) && sent(outputs[j]) == consumed(input)
+//@ loop#2 invariant forall j, k :: 0 <= j && j < count && 0 <= k && k < consumed(input) ==> outputs[j][k] == input[k] && hor(outputs[j], k) <= hor(input, k)
+//@ loop#3 invariant forall j :: 0 <= j && j < idx3 ==> !closed(outputs[j]) && sent(outputs[j]) == consumed(input)
+//@ loop#3 invariant forall j :: idx3 <= j && j < count ==> !closed(outputs[j]) && sent(outputs[j]) == consumed(input) - 1
+//@ loop#3 invariant forall j, k :: 0 <= j && j < count && 0 <= k && k < sent(outputs[j]) ==> outputs[j][k] == input[k] && hor(outputs[j], k) <= hor(input, k)
 
 //@ func Change
 //@ requires before >= 0 && consumed(c) == 0
